@@ -75,6 +75,12 @@ impl Request {
     }
 }
 
+// Keys travel between the nodes inside one-line messages: a key holding a line break would reach the
+// other nodes as a different key (and value) than the one checked and written here
+fn key_without_line_breaks(key: &str) -> String {
+    key.replace("\n", "").replace("\r", "")
+}
+
 fn parse_auth_command(command: &mut std::str::SplitN<&str>) -> Result<Request, String> {
     let user = match command.next() {
         Some(key) => key,
@@ -104,7 +110,7 @@ fn parse_remove_command(command: &mut std::str::SplitN<&str>) -> Result<Request,
         }
     };
     Ok(Request::Remove {
-        key: key.to_string(),
+        key: key_without_line_breaks(key),
     })
 }
 fn parse_replicate_increment_command(
@@ -163,7 +169,7 @@ fn parse_increment_command(command: &mut std::str::SplitN<&str>) -> Result<Reque
         None => 1,
     };
     Ok(Request::Increment {
-        key: key.to_string(),
+        key: key_without_line_breaks(key),
         inc,
     })
 }
@@ -205,7 +211,7 @@ fn parse_set_safe_command(command: &mut std::str::SplitN<&str>) -> Result<Reques
     };
 
     Ok(Request::Set {
-        key: key.to_string(),
+        key: key_without_line_breaks(key),
         value: value.to_string(),
         version,
     })
@@ -227,7 +233,7 @@ fn parse_set_command(command: &mut std::str::SplitN<&str>) -> Result<Request, St
         }
     };
     Ok(Request::Set {
-        key: key.to_string(),
+        key: key_without_line_breaks(key),
         value: value.to_string(),
         version: -1,
     })
@@ -359,7 +365,7 @@ fn parse_resolve_command(command: &mut std::str::SplitN<&str>) -> Result<Request
     };
 
     let key = match rest.next() {
-        Some(key) => key.replace("\n", ""),
+        Some(key) => key_without_line_breaks(key),
         None => return Err(String::from("key must be provided")),
     };
 
